@@ -148,7 +148,7 @@ func goLiteral(v Val, modelVal string) string {
 // runTemplateDriver asks the solver for the probe values in the failing model and runs the test.
 func (ex *Exec) runTemplateDriver(ob *Obligation, repo, base string) (string, bool, string, map[string]string) {
 	d := tmplDrivers[ob.Func]
-	probes := ex.probes[ob.Func]
+	probes := ob.Probes
 	if d == nil || probes == nil {
 		return "", false, "", nil
 	}
@@ -165,8 +165,8 @@ func (ex *Exec) runTemplateDriver(ob *Obligation, repo, base string) (string, bo
 		extra += "(assert (= " + t + " " + t + "))\n"
 	}
 	save := ob.PC
-	ob.PC = append(append([]string(nil), ob.PC...), )
-	script := ex.scriptWith(ob, true, extra)
+	ob.PC = append(append([]string(nil), ob.PC...))
+	script := ex.scriptOpts(ob, true, extra, ob.Hunted)
 	ob.PC = save
 	script += "(get-value (" + strings.Join(terms, " ") + "))\n"
 	var out string
